@@ -29,6 +29,7 @@ type c02Env struct {
 	ch           c02Chain
 	gQ, gP       []uint64
 	Qs, Ps       string
+	over         int  // extra (junk) rows of every polynomial handed to the code: allocated above the level it is used at
 	ci           bool // conjugate-invariant rings (NthRoot = 4N): ops "divci", "moddownnttci"
 }
 
@@ -99,9 +100,10 @@ func c02OneModUp(c *Ctx, po bool, e *c02Env, be *ring.BasisExtender, dir string,
 		src, dst = mP, mQ
 	}
 	in := c02RowsOf(X, src)
-	pin := c02PolyFromRows(e.N, in)
+	pin := c02PolyOver(c.rng, e.N, in, e.over)
 	args := fmt.Sprintf("%s %s %s %d %d %s", dir, e.Qs, e.Ps, levelQ, levelP, Mat(in))
-	out, pan := c02DoModUp(be, dir, levelQ, levelP, pin, c.rng, e.N, len(dst))
+	out, pan := c02DoModUp(be, dir, levelQ, levelP, pin, c.rng, e.N, len(dst)+e.over)
+	out = out[:len(dst)]
 	c.Count("modup:" + dir)
 	if pan {
 		if !po {
@@ -129,7 +131,7 @@ func c02DoModDown(be *ring.BasisExtender, rq, rp *ring.Ring, kind string, levelQ
 	if kind == "qptop" {
 		lvl = levelP
 	}
-	p2 := c02JunkPoly(r, N, lvl)
+	p2 := c02JunkPoly(r, N, lvl+1) // one row more than needed: outputs may be allocated above the level too
 	pan = c02Panics(func() {
 		switch kind {
 		case "qptoq":
@@ -146,7 +148,7 @@ func c02DoModDown(be *ring.BasisExtender, rq, rp *ring.Ring, kind string, levelQ
 func c02OneModDown(c *Ctx, po bool, e *c02Env, be *ring.BasisExtender, kind string, levelQ, levelP int, X []*big.Int, hist string) {
 	mQ, mP := e.ch.Q[:levelQ+1], e.ch.P[:levelP+1]
 	inQ, inP := c02RowsOf(X, mQ), c02RowsOf(X, mP)
-	p1Q, p1P := c02PolyFromRows(e.N, inQ), c02PolyFromRows(e.N, inP)
+	p1Q, p1P := c02PolyOver(c.rng, e.N, inQ, e.over), c02PolyOver(c.rng, e.N, inP, e.over)
 	var line string
 	if kind == "qptoqntt" {
 		e.ringQ.AtLevel(levelQ).NTT(p1Q, p1Q)
@@ -293,7 +295,7 @@ func c02OneDiv(c *Ctx, po bool, e *c02Env, rl *ring.Ring, kind string, level, nb
 	if outLevel < 0 {
 		return
 	}
-	p0 := c02PolyFromRows(e.N, c02RowsOf(X, e.ch.Q[:level+1]))
+	p0 := c02PolyOver(r, e.N, c02RowsOf(X, e.ch.Q[:level+1]), e.over)
 	if isNTT {
 		rl.NTT(p0, p0)
 	}
